@@ -2,6 +2,14 @@
 # passes on the unchanged tree; PENDING for claimed-in-design but unbuilt.
 
 ENGINES = [
+ {"name": "concsim", "path": "sim/c07.go + tools/instrument + race/", "serves_properties": ["C07"],
+  "kind_free_text": "baton-passing scheduler over an AST-instrumented scratch copy of the working tree (schedule point before every statement, lock acquisition routed through the simulator); plan-driven burst preemptions and re-entrant operator calls at the ResponseWriter/handler seams; history checked with porcupine against the sequential real code; -race stress companion for the data-race clause"},
+ {"name": "histsim", "path": "sim/hist.go sim/c09.go sim/c11.go sim/c12.go", "serves_properties": ["C06", "C08", "C09", "C11", "C12"],
+  "kind_free_text": "seeded call histories on stateful middlewares with faults placed inside them: snapshot/restore (C06), rejected Reconfigure (C08), SetDebug/Reconfigure sequences against the documented state machine (C09), scripted handler + recording writer (C11), memory-mutation faults on every slice shared with callers (C12)"},
+ {"name": "protosim", "path": "sim/c02.go", "serves_properties": ["C02"],
+  "kind_free_text": "browser <-> header-altering intermediary <-> real middleware protocol runs; executable Fetch client; independent what-the-Config-means predicate"},
+ {"name": "cachesim", "path": "sim/c10.go", "serves_properties": ["C10"],
+  "kind_free_text": "clients -> Vary-honouring shared cache model -> real middleware, with shadow fetch on every hit"},
  {"name": "cancelsim", "path": "sim/c19.go", "serves_properties": ["C19"],
   "kind_free_text": "iterator-consumer party that cancels at every yield position of seeded join trees (fault F8); independent explicit-stack flattening as reference"},
 ]
@@ -16,13 +24,46 @@ claim("C19", "cancelsim", "fault_enumeration",
       "Trusted: the 15-line explicit-stack flattening used as reference, pointer identity of leaves, Go's iter.Pull. Domain restricted to errors.Join trees, as cfgerrors.All documents.",
       "DESIGN §3 C19")
 
-PENDING.update({
- "C02": "check under construction (protosim: browser/intermediary protocol simulation) — not yet claimed",
- "C06": "check under construction (histsim with snapshot/restore faults) — not yet claimed",
- "C07": "check under construction (concsim: controlled interleavings + porcupine) — not yet claimed",
- "C08": "check under construction (histsim with rejected-Reconfigure faults) — not yet claimed",
- "C09": "check under construction (histsim against the documented debug state machine) — not yet claimed",
- "C10": "check under construction (cachesim: Vary-honouring shared cache) — not yet claimed",
- "C11": "check under construction (histsim with scripted handler/recording writer) — not yet claimed",
- "C12": "check under construction (histsim with memory-mutation faults) — not yet claimed",
-})
+
+SIM = "deterministic simulation with fault injection: "
+
+claim("C02", "protosim", "exploration",
+      SIM + "seeded multi-party protocol runs (executable Fetch browser, intermediary injecting tolerated ACRH alterations in flight, debug mode as live state) against the real middleware; oracle = independent permits(Config, intent) predicate",
+      "Every run draws an accepted configuration, 1..4 browser intents and 0..3 in-flight alterations; each intent is executed four ways (debug off/on x unaltered/altered) as a complete preflight+actual protocol run, and the browser's verdict must equal what the configuration means. Sampling by seed over configurations x intents x alterations: exploration.",
+      "Trusted: the ~150-line browser model (Fetch CORS-preflight fetch 7.x, CORS check, extract header list values, PNA) and the 40-line permits predicate written from the Config documentation; net/http's server is not in the loop (requests are built the way it delivers them); preflight cache not modelled; only browser-serialisable tuple origins.",
+      "DESIGN §3 C02")
+claim("C06", "histsim", "exploration",
+      SIM + "seeded call histories with snapshot/restore faults (Reconfigure(Config()), restart from Config(), double restore) at arbitrary positions; differential oracle real-code-before vs real-code-after plus constructor twins",
+      "3..12-step histories over 1..3 accepted configurations; at every restore/restart fault the full probe suite (matching origins and near-misses of every pattern, all dispatch paths) is compared before/after, Config() must be a fixpoint after the first round trip, and NewMiddleware(c), NewMiddleware(*Config()) and zero-value+Reconfigure(&c) must agree in both debug modes. Seeded sampling: exploration.",
+      "Differential: holds no opinion on the right CORS answer. Behaviour outside the derived probe suite (~260 requests per configuration) is not observed.",
+      "DESIGN §3 C06")
+claim("C07", "concsim", "exploration",
+      SIM + "plan-driven baton scheduler over an AST-instrumented copy of the working tree (preemption possible before every statement; lock acquisition simulated), burst preemptions + re-entrant operator calls at writer/handler seams, history checked for linearizability (porcupine) against the sequential real code; -race stress companion for the data-race clause",
+      "Each run executes 2..5 tasks (requests chosen to discriminate the states in play; Reconfigure/SetDebug/Config/Reconfigure(Config())/rejected Reconfigure) under a seeded schedule with 0..4 burst preemptions placed uniformly over the measured schedule points of a victim operation; the recorded invoke/return history must be linearizable w.r.t. the same code run sequentially; deadlock and panics are violations. Schedules are sampled, not enumerated: exploration. The data-race clause is decided by a separate free-running -race stress, which is observation of real executions and is labelled as such.",
+      "Trusted: the instrumenter (syntactic; the repository's tests are run on the instrumented copy with hooks off on every check), porcupine v1.3.0, Go's race detector. Assumes the library starts no goroutines. Histories are short (<= ~25 operations).",
+      "DESIGN §3 C07")
+claim("C08", "histsim", "exploration",
+      SIM + "seeded call histories with rejected-Reconfigure faults (valid configuration different from the current one + 1..4 planted documented violations) at arbitrary positions; differential oracle before/after",
+      "2..10-step histories from passthrough and configured states with debug on/off; at every rejected Reconfigure the error must be non-nil and the probe suite (incl. probes derived from the rejected configuration), Config() and the debug probe must be identical before and after. Seeded sampling: exploration.",
+      "The violation catalogue (12 kinds, ~90 literal values) contains only cases the Config documentation calls prohibited. Differential oracle; behaviour outside the probe suite is not observed.",
+      "DESIGN §3 C08")
+claim("C09", "histsim", "exploration",
+      SIM + "seeded operation histories over SetDebug/Reconfigure(nil|A|B|invalid) from both start states, observed after every step against an independent 2-variable state machine transcribed from the documentation",
+      "Sequences of length 1..8 (the space up to length 6 is ~9e4 and is covered many times over per quick run) x seeded configurations with an observable debug probe; passthrough detection, Config() nil-ness and the failing-preflight debug probe after every step; plus a debug-on/debug-off twin comparison over the whole probe suite for the second clause. Seeded sampling: exploration.",
+      "Trusted: the 15-line state machine and the reading of 'changes only diagnostics' stated in the evidence assumptions (successful preflights may differ in the Access-Control-Allow-Headers value only).",
+      "DESIGN §3 C09")
+claim("C10", "cachesim", "exploration",
+      SIM + "seeded request arrival orders through a Vary-honouring shared-cache model (cache interposition and duplication as faults) with a shadow fetch to the real middleware on every hit",
+      "Per run one configuration, debug mode, optional outer Vary value and 4..24 requests (populating requests plus victims derived by mutating Origin/ACRM/ACRH/ACRPN/unrelated headers); on every cache hit the stored response must equal what the middleware answers the hitting request; pre-set Vary values must survive. Seeded sampling: exploration.",
+      "Cache model = strictest reading of RFC 9111 section 4.1 (byte-identical field-line sequences), which yields the fewest agreeing pairs and therefore no alarm from a cache being cleverer than required. Zero-length header value lists (not representable on the wire) are not generated.",
+      "DESIGN §3 C10")
+claim("C11", "histsim", "exploration",
+      SIM + "histories through passthrough and several configurations; after every step the full method x Origin-shape x ACRM-shape grid with seeded pre-set headers and scripted handlers, observed through a recording ResponseWriter and an identity-recording handler",
+      "Exactly-once / same-identity / conservation invariants and an independent preflight predicate are checked on ~160 requests after every history step: handler never invoked and no body for preflights on a configured middleware; otherwise one invocation with the identical request and writer, only Vary-append and ACAO/ACAC/ACEH changes between pre-set and handler-visible headers, no writer call before WriteHeader by the middleware, none after the handler returns, script status/body/headers delivered. Seeded sampling of histories, presets and scripts: exploration.",
+      "Whether the middleware is configured is taken from the plan (last successful Reconfigure). Status/headers of preflight responses are deliberately not judged here (C02/C03/C16).",
+      "DESIGN §3 C11")
+claim("C12", "histsim", "exploration",
+      SIM + "several middlewares alive at once under memory-mutation faults (scribbling over every slice, incl. spare capacity, reachable from Config arguments, Config() results, request and response headers visible to the wrapped handler) and duplicated/foreign requests; differential oracle against a baseline recorded before any fault",
+      "5..40-step histories over 1..3 middlewares (optionally sharing the very same Config value); after every step all probe suites, in a plan-derived permuted order, and Config() must equal the pre-fault baseline. A violation that only reproduces after the preceding runs of its worker process (state leaking through process-global memory) is reported with a worker-prefix replay. Seeded sampling: exploration.",
+      "Differential oracle. An outer party scribbling over a finished preflight response (which aliases package-level singletons by design) is outside the property and not injected.",
+      "DESIGN §3 C12")
